@@ -31,6 +31,7 @@ structure Snap where
   cfgIdx : Nat
   cfg : Config
   data : List Nat          -- the FSM content (list of applied payloads)
+  ok : Bool := true        -- can it still be opened and read back (false: damaged on disk)
 deriving DecidableEq, Repr
 
 /-- the durable state: StableStore keys, the InmemStore log (entries ascending by index, possibly
@@ -439,7 +440,7 @@ def isPlan (cf : Cfg) (d : Durable) (v : Vol) (q : ISReq) : Plan :=
     if q.lastIdx ≤ v2.applied ∨ holdsEntry d v2 q.lastIdx q.lastTerm then ⟨pre, mkRes (.install t1 true false) v2⟩
     else if ¬ q.sizeOk then ⟨pre, mkRes (.install t1 false true) v2⟩       -- sink cancelled, "short read"
     else
-      let s : Snap := ⟨q.lastIdx, q.lastTerm, q.cfgIdx, q.cfg, q.data⟩
+      let s : Snap := ⟨q.lastIdx, q.lastTerm, q.cfgIdx, q.cfg, q.data, true⟩
       let v3 : Vol := { v2 with applied := q.lastIdx, snapIdx := q.lastIdx, snapTerm := q.lastTerm,
                                 latest := q.cfg, latestIdx := q.cfgIdx, committed := q.cfg, committedIdx := q.cfgIdx }
       if cf.monotonic then
@@ -481,30 +482,47 @@ def scanConfigs (log : List Entry) : (n : Nat) → (start : Nat) → Vol → Opt
 
 /-- `NewRaft` on a durable image: volatile state and FSM calls, or `none` if it does not return a
     server (error or panic) -/
+def usableSnap (d : Durable) : Option Snap := d.snaps.find? (·.ok)
+
+/-- the newest snapshot that can still be read is damaged (a disk fault; only felt at the next start) -/
+def damageNewest : List Snap → List Snap
+  | [] => []
+  | s :: rest => if s.ok then { s with ok := false } :: rest else s :: damageNewest rest
+
+/-- the cached last entry `NewRaft` reads back (`none`: the store cannot produce its own last index) -/
+def restartLast (d : Durable) : Option (Nat × Nat) :=
+  if d.high = 0 then some (0, 0)
+  else match getLog d.log d.high with
+    | none => none
+    | some e => some (e.index, e.term)
+
+/-- `restoreSnapshot`: the newest usable snapshot, if any, becomes the FSM state, the snapshot
+    position, `lastApplied` and both configurations -/
+def restartSnap (d : Durable) (v0 : Vol) : Vol × List FsmCall :=
+  match usableSnap d with
+  | none => (v0, [])
+  | some s => ({ v0 with applied := s.idx, snapIdx := s.idx, snapTerm := s.term,
+                         committed := s.cfg, committedIdx := s.cfgIdx, latest := s.cfg, latestIdx := s.cfgIdx },
+                [.restore s.data])
+
+/-- RestoreCommittedLogs: replay up to the staged commit index (never past the last entry) -/
+def restartCommitted (cf : Cfg) (d : Durable) (v1 : Vol) (calls1 : List FsmCall) : Option (Vol × List FsmCall) :=
+  if cf.restoreCommitted then
+    let ci := min d.staged d.high
+    match processLogs d.log v1.applied ci with
+    | none => none
+    | some calls => some ({ v1 with commit := ci, applied := if ci ≤ v1.applied then v1.applied else ci }, calls1 ++ calls)
+  else some (v1, calls1)
+
 def restart (cf : Cfg) (d : Durable) : Option (Vol × List FsmCall) :=
-  let lastLog : Option (Nat × Nat) :=
-    if d.high = 0 then some (0, 0)
-    else match getLog d.log d.high with
-      | none => none
-      | some e => some (e.index, e.term)
-  match lastLog with
+  -- `restoreSnapshot`: newest to oldest, the first that opens and restores; snapshots listed but
+  -- none usable is an error
+  if !d.snaps.isEmpty && (usableSnap d).isNone then none else
+  match restartLast d with
   | none => none
   | some (li, lt) =>
     let v0 : Vol := { emptyVol with term := d.curTerm, lastLogIdx := li, lastLogTerm := lt }
-    let (v1, calls1) : Vol × List FsmCall :=
-      match d.snaps.head? with
-      | none => (v0, [])
-      | some s => ({ v0 with applied := s.idx, snapIdx := s.idx, snapTerm := s.term,
-                             committed := s.cfg, committedIdx := s.cfgIdx, latest := s.cfg, latestIdx := s.cfgIdx },
-                    [.restore s.data])
-    let r2 : Option (Vol × List FsmCall) :=
-      if cf.restoreCommitted then
-        let ci := min d.staged d.high
-        match processLogs d.log v1.applied ci with
-        | none => none
-        | some calls => some ({ v1 with commit := ci, applied := if ci ≤ v1.applied then v1.applied else ci }, calls1 ++ calls)
-      else some (v1, calls1)
-    match r2 with
+    match restartCommitted cf d (restartSnap d v0).1 (restartSnap d v0).2 with
     | none => none
     | some (v2, calls2) =>
       let from_ := v2.snapIdx + 1
